@@ -1,9 +1,49 @@
 mod c15;
 mod c16;
+mod cdc_ir;
+mod drv_gen;
+mod drv_ir;
+mod drv_model;
+mod pipe;
 
 fn main() {
     let args: Vec<String> = std::env::args().skip(1).collect();
     let id = args.first().cloned().unwrap_or_default();
+    if id == "probe" {
+        // developer aid: `vc-drv probe FILE...` prints the analyzer diagnostics
+        for f in &args[1..] {
+            let src = std::fs::read_to_string(f).expect("read");
+            // designs separated by lines of `-----` are analysed independently
+            for (i, part) in src.split("\n-----\n").enumerate() {
+                let part = part.to_string();
+                let r = std::thread::Builder::new()
+                    .stack_size(8 << 20)
+                    .spawn(move || pipe::analyze(&part).map(|d| (d, part)))
+                    .unwrap()
+                    .join();
+                println!("== {f} #{i}");
+                match r {
+                    Ok(Some((ds, part))) => {
+                        for d in ds {
+                            let lines: Vec<usize> = d.spans.iter().map(|s| pipe::line_of(&part, s.0)).collect();
+                            println!(
+                                "  {}{} ident={:?} lines={:?} dom={:?} :: {}",
+                                if d.is_error { "E " } else { "W " },
+                                d.code,
+                                d.ident,
+                                lines,
+                                d.domains,
+                                d.msg
+                            );
+                        }
+                    }
+                    Ok(None) => println!("  PARSE ERROR"),
+                    Err(_) => println!("  PANIC"),
+                }
+            }
+        }
+        return;
+    }
     vcore::quiet_panics();
     let ctx = vcore::Ctx::new(&id, &args[1.min(args.len())..]);
     match id.as_str() {
